@@ -29,7 +29,8 @@ class CcAnyH(Harness):
     functions = ["Any.__init__", ("puan.logic.plog", "Any.__init__"), ("puan.logic.plog", "AtLeast.__init__")]
 
     def cases(self):
-        return [{"default": None}, {"default": "d"}]
+        # a default list of two entries: the FIRST one is the default (the second is only recorded)
+        return [{"default": None}, {"default": "d"}, {"default": "d", "second": "e"}, {"default": "e", "second": "d"}]
 
     def contracts(self, repo):
         return {"negate": negate_contract()}
@@ -41,7 +42,8 @@ class CcAnyH(Harness):
 
     def run(self, c, st):
         d = c.state_case["default"]
-        return st["cc"].Any(*st["xs"], default=[d] if d else None, variable="A")
+        dl = None if not d else [d] + ([c.state_case["second"]] if c.state_case.get("second") else [])
+        return st["cc"].Any(*st["xs"], default=dl, variable="A")
 
     def ensures(self, c, st, res):
         env, fam, xs = c.env, st["fam"], st["xs"]
@@ -75,7 +77,7 @@ class CcAnyH(Harness):
                                                         lift(z3.Implies(fam.base.inrange(), g_in == z3.Not(is_def))))))
         else:
             out.append(("cc.Any/struct.plain-when-not-needed", bnot(restructured)))
-        out.append(("cc.Any/default-recorded", [v.id for v in res.default] == [d]))
+        out.append(("cc.Any/default-recorded", [v.id for v in res.default] == [d] + ([c.state_case["second"]] if c.state_case.get("second") else [])))
         return out
 
 
